@@ -380,8 +380,31 @@ func famFault(e *env, root *core.Rand, n int) {
 		other := maker(r.Fork(2), 0, 0.1)
 		rec.IDs = []uuid.UUID{mk().ID, other().ID}
 		rec.Create(other(), other(), "create-other")
-		mode := i % 8
+		mode := i % 10
 		switch mode {
+		case 8: // Delete whose PLAN batch is refused the way the service refuses (HTTP 207: nil error, Success=false,
+			// 412 / 424 per operation; a stale If-Match after a concurrent update, a missing item): nothing was
+			// deleted, so Delete must return an error and the plan must be completely there, search entry included
+			rec.Create(mk(), mk(), "create")
+			victim := storelib.Actions(mk())[0].A.ID.String()
+			if i%20 >= 10 {
+				victim = mk().ID.String() // the plan item itself (the last operation of the batch)
+			}
+			b.Cosmos.SetBatchRefusalStyle(true)
+			b.Cosmos.SetPoisonItem(victim)
+			err := b.Vault.Delete(ctx, mk().ID)
+			b.Cosmos.SetPoisonItem("")
+			b.Cosmos.SetBatchRefusalStyle(false)
+			rec.Deleted_(mk().ID, err, "delete-plan-batch-softly-refused", "(CDeleteStage 0)")
+			rec.Delete(mk().ID)
+		case 9: // only the SEARCH batch of Delete softly refused: an error, the items are gone, the entry stays
+			rec.Create(mk(), mk(), "create")
+			b.Cosmos.SetBatchRefusalStyle(true)
+			b.Cosmos.SetPoisonSearchPartition(true)
+			err := b.Vault.Delete(ctx, mk().ID)
+			b.Cosmos.SetPoisonSearchPartition(false)
+			b.Cosmos.SetBatchRefusalStyle(false)
+			rec.Deleted_(mk().ID, err, "delete-search-batch-softly-refused", "(CDeleteStage 1)")
 		case 7: // UpdatePlan whose ITEM patch fails (the plan is not there: 404, not retriable): an error, and the
 			// search partition must be untouched - the search entry is replaced only after the patch succeeded
 			gone := mk()
@@ -754,7 +777,7 @@ func main() {
 	nDup := flag.Int("dup", 12, "cases")
 	nInter := flag.Int("interleave", 18, "cases")
 	nCollide := flag.Int("collide", 10, "cases")
-	nFault := flag.Int("fault", 16, "cases")
+	nFault := flag.Int("fault", 20, "cases")
 	nBig := flag.Int("bigbatch", 2, "big plans for the cosmosdb batch family (three cases each)")
 	nCancel := flag.Int("cancel", 10, "cases of the context-cancelled family (24 cancelled calls each)")
 	nBurst := flag.Int("cancelburst", 16, "cases of the late-cancelled Delete burst (about 150 cancelled Deletes each)")
